@@ -48,7 +48,7 @@ class Gen:
         self.rows = {r["name"]: r for r in gen_dict.rows()}
         self.classes = {c.__name__: c for c in bromdict.all_classes()}
         self.names = sorted(self.rows)
-        self.leaf_names = [n for n in self.names if self.rows[n]["kind"] not in ("Grouped", "unmodelled", "DiameterURI")]
+        self.leaf_names = [n for n in self.names if self.rows[n]["kind"] not in ("Grouped", "unmodelled")]
         self.grouped_names = [n for n in self.names if self.rows[n]["kind"] == "Grouped"]
         self.hits = {}
         self.build = True          # construct the Python objects (False: descriptors only, for wire images)
@@ -84,6 +84,13 @@ class Gen:
                 return n, ["I", str(n)]
             b = self.rbytes(r.choice([1, 5, 6, 7, 8]))
             return b, ["B", b.hex()]
+        if k == "DiameterURI":
+            host = r.choice(["host.example.com", "h1.realm.org", "abc", "a-b_c.d", "x" * 64, "épc.mnc1.org", "9a.b", "a.9"])
+            u = r.choice(["aaa://", "aaas://"]) + host + r.choice(["", ":3868", ":1", ":49151", ":80"]) + \
+                r.choice(["", ";transport=tcp", ";transport=sctp", ";transport=udp"]) + r.choice(["", ";protocol=diameter", ";protocol=radius"])
+            if r.random() < 0.5:
+                return u, ["S", ",".join(str(ord(c)) for c in u)]
+            return u.encode(), ["B", u.encode().hex()]
         if k == "Integer32":
             b = self.rbytes(4)
             return b, ["B", b.hex()]
@@ -208,8 +215,8 @@ class Gen:
                     # bottom out: only mandatory members, leaves where possible
                     return self.grouped(0, name)
                 return self.grouped(depth, name)
-            if k in ("unmodelled", "DiameterURI"):
-                return self.uri(name)
+            if k == "unmodelled":
+                raise KeyError("class %s has a constructor shape the translator does not model" % name)
             return self.leaf(name)
         c = r.random()
         if c < 0.25:
